@@ -22,8 +22,8 @@ TEXT = {
          "contract-based deductive verification (Verus) of the real list.rs bodies: rep invariant + abstract Seq view"),
  "C06": ("proof", "4.2", "Verus proves the frame postcondition 'Err => the four session component views are those on entry' on the real Context::interpret_with_settings (whole body incl. the on-demand currency block), with every callee modelled as havoc on its receiver. 'All histories' reduces to one call by induction over the history.",
          "contract-based deductive verification (Verus): frame postcondition on the real interpret_with_settings"),
- "C02": ("other", "4.2", "PARTIAL. Only the last sentence of C02 (a rejected input is rejected as a whole before any statement runs: prints nothing, interpreter untouched) is proved, as a postcondition of the real interpret_with_settings. Acceptance = dimensional consistency and reported types are NOT covered: they are completeness/correctness of elaborate_expression + constraint solving, out of reach of contracts here.",
-         "contract-based deductive verification (Verus): postcondition on interpret_with_settings (one clause of the property only)"),
+ "C02": ("other", "4.2 / 4.14", "PARTIAL (two clauses). (1) A rejected input is rejected as a whole before any statement runs (prints nothing, interpreter untouched): postcondition of the real interpret_with_settings. (2) Constraint GENERATION and the store: Verus proves on the real type-checker text that a constraint is dropped only when it holds outright (two closed types that differ are refuted on the spot: Constraint::try_trivial_resolution against a spec function), that ConstraintSet::add keeps every constraint that is not trivially satisfied, and that addition / subtraction / conversion / ordering comparisons (the closure get_type_and_assert_equal_dtypes), == and !=, && and ||, unary minus / factorial / !, if-then-else and annotated definitions (_elaborate_inner) each demand exactly the equations the statement lists (equal operand types, Bool conditions, equal branches, annotated = deduced) or fail at once. NOT covered: solving the constraints (ConstraintSet::solve, Gaussian elimination over exponents), multiplication / division / powers, function calls, list elements, struct fields, return types, and that the reported type equals dimensional analysis.",
+         "contract-based deductive verification (Verus): postcondition on interpret_with_settings; arm- and block-level extraction of the real elaborate_expression arms and of the constraint store against spec predicates over an abstract constraint log"),
  "C11": ("proof", "4.3", "Verus proves the real Quantity::{values_in_common_unit, eq, partial_cmp, partial_cmp_preserve_nan} and Unit::smaller_unit equal to spec functions written from the statement; symmetry of ==, antisymmetry of the ordering, NaN => NanOperand and trichotomy are Verus lemmas over those specs, using only IEEE-754 axioms that Kani proves on the real Number impls over all f64 bit patterns (thorough tier).",
          "contract-based deductive verification (Verus contracts + lemmas; Kani for the IEEE axioms on the real Number impls)"),
  "C12": ("proof", "4.3", "Verus proves the real impl Add/Sub for &Quantity, Neg for Quantity and Unit::smaller_unit equal to add_spec/sub_spec; commutation / anti-commutation (same value in the same unit when sizes differ and not both zero; both zero => zero) are Verus lemmas over those specs with Kani-proved IEEE axioms.",
@@ -36,8 +36,8 @@ TEXT = {
          "contract-based deductive verification (Verus) of the real convert_to / no_simplify / with_conversion_target / ConvertTo arm; loop abstracted by havoc"),
  "C05": ("other", "4.9", "PARTIAL (one clause): Verus proves that full_simplify and full_simplify_with_registry return a value marked by an explicit conversion unchanged (the marking itself is proved for the ConvertTo arm). Preservation of dimension and magnitude by the simplification heuristics is NOT covered.",
          "contract-based deductive verification (Verus) of the can_simplify guards of the real full_simplify / full_simplify_with_registry (function tails abstracted)"),
- "C10": ("other", "4.10", "PARTIAL (operator levels only): Verus proves for all token sequences that every precedence-level function of the real recursive-descent parser (condition .. unicode_power, and the generic parse_binop with its closures) returns exactly the tree that the documented precedence/associativity table prescribes for the tokens it consumed (spec relation g written from book/src/basics/operations.md). call/primary/arguments, statements, the tokenizer and completeness of acceptance are not covered (reverse application `|>` IS covered).",
-         "contract-based deductive verification (Verus) of the real parser level functions against a recursive grammar relation; higher-order contracts (call_requires / call_ensures) for parse_binop's closures"),
+ "C10": ("other", "4.10", "PARTIAL: Verus proves for all token sequences that every precedence-level function of the real recursive-descent parser (postfix_apply, condition .. unicode_power, the generic parse_binop with its closures), call (argument lists, field access), arguments, identifier and the parenthesised / list / struct branches of primary return exactly the tree that the documented grammar prescribes for the tokens they consumed (one recursive spec relation g written from book/src/basics/operations.md), and that each level consumes the LONGEST derivation (after a level returns, the next token cannot continue it). Literal tokens, strings and interpolation, statements, the tokenizer and completeness of acceptance are not covered.",
+         "contract-based deductive verification (Verus) of the real parser functions against a recursive grammar relation; higher-order contracts (call_requires / call_ensures) for parse_binop's closures; block-level extraction of branches of primary"),
  "C22": ("other", "4.11", "PARTIAL (exit-status logic): Verus proves that the input loop of the real Cli::run returns Ok iff no evaluated input asked to stop (and then has evaluated all of them), that every error arm of parse_and_evaluate maps to exit_status_in_case_of_error, and that this is Break(Error) in normal mode. Stream routing, printing, `-e` joining, process::exit in main and the REPL are not covered.",
          "contract-based deductive verification (Verus) of the real run loop (statement-level extraction), the error arms of parse_and_evaluate (arm-level) and exit_status_in_case_of_error"),
  "C17": ("other", "4.12", "PARTIAL (de-duplication clause): Verus proves on the real Resolver::inlining_pass that importing an already imported module changes nothing (no module is read, the import list is unchanged, the program is inlined to exactly its non-import statements in order), that the import list only grows, that a module is registered before its own imports are inlined, and that UnknownModule names a module the importer does not know. Success of every standard-library import and order-independence of the resulting definitions are not covered.",
